@@ -541,6 +541,13 @@ func (nfs *Nfs) doRemove(dfh nfstypes.Nfs_fh3, name nfstypes.Filename3, isdir bo
 		util.DPrintf(0, "Remove failed\n")
 		return op, nfstypes.NFS3ERR_IO
 	}
+	// undo the parent's link for the removed directory's .. (see doCreate).
+	// XXX RENAME doesn't move that link along with a directory, so the
+	// parent may not have it; never drop the parent's own link.
+	if inodes[0].Kind == nfstypes.NF3DIR && inodes[1].Nlink > 1 {
+		inodes[1].Nlink = inodes[1].Nlink - 1
+		inodes[1].WriteInode(op.Atxn)
+	}
 	nfs.doDecLink(op, inodes[0])
 	return op, nfstypes.NFS3_OK
 }
